@@ -1,0 +1,118 @@
+//go:build verif
+
+// Contracts for the verification machinery in /verif (govc). This file contains a package
+// clause and comments only; it is compiled only under the `verif` build tag and adds no code.
+
+package raft
+
+// ===========================================================================================
+// Quorum arithmetic
+// ===========================================================================================
+
+//@ spec cntVoters(c) = cnt(dom(c.IsVoter), vals(c.IsVoter))
+
+//@ func Raft.hasQuorum
+//@   flags lockheld
+//@   requires r.configuration != nil
+//@   ensures [spec] result == (2*count > cntVoters(r.configuration))
+//@   loop range r.configuration.IsVoter invariant [voters] voters == cnt(visited, vals(r.configuration.IsVoter))
+
+//@ func numeric.Min
+//@   ensures [spec] result == min(a, b)
+//@ func numeric.Max
+//@   ensures [spec] result == max(a, b)
+
+// ===========================================================================================
+// C19: converters between API structs and protobuf messages
+// ===========================================================================================
+
+//@ spec toI32(x) = ite(x < 2147483648, x, x - 4294967296)
+//@ spec toU32(x) = ite(x >= 0, x, x + 4294967296)
+//@ spec protoOf(pe, e) = pe != nil && pe.Index == e.Index && pe.Term == e.Term && pe.Data == e.Data && pe.EntryType == toI32(e.EntryType)
+//@ spec entryOf(e, pe) = e != nil && e.Index == pe.Index && e.Term == pe.Term && e.Data == pe.Data && e.EntryType == toU32(pe.EntryType)
+//@ spec sameEntry(a, b) = a.Index == b.Index && a.Term == b.Term && a.Data == b.Data && a.EntryType == b.EntryType
+
+//@ lemma enum.roundtrip(v uint32)
+//@   ensures [u32-i32-u32] toU32(toI32(v)) == v
+//@   ensures [i32-range] toI32(v) >= -2147483648 && toI32(v) <= 2147483647
+
+//@ func makeProtoEntries
+//@   requires forall j int :: 0 <= j && j < len(entries) ==> entries[j] != nil
+//@   ensures [len] len(result) == len(entries)
+//@   ensures [elems] forall j int :: 0 <= j && j < len(entries) ==> protoOf(result[j], entries[j])
+//@   loop range entries invariant [len] len(protoEntries) == len(entries)
+//@   loop range entries invariant [elems] forall j int :: 0 <= j && j < i ==> allocated(protoEntries[j]) && protoOf(protoEntries[j], entries[j])
+
+//@ func makeEntries
+//@   requires forall j int :: 0 <= j && j < len(protoEntries) ==> protoEntries[j] != nil
+//@   ensures [len] len(result) == len(protoEntries)
+//@   ensures [elems] forall j int :: 0 <= j && j < len(protoEntries) ==> entryOf(result[j], protoEntries[j])
+//@   loop range protoEntries invariant [len] len(entries) == len(protoEntries)
+//@   loop range protoEntries invariant [elems] forall j int :: 0 <= j && j < i ==> allocated(entries[j]) && entryOf(entries[j], protoEntries[j])
+
+//@ lemma roundtrip.Entries(es []*LogEntry)
+//@   requires forall j int :: 0 <= j && j < len(es) ==> es[j] != nil
+//@   val ps = makeProtoEntries(es)
+//@   val zs = makeEntries(ps)
+//@   ensures [len] len(zs) == len(es)
+//@   ensures [elems] forall j int :: 0 <= j && j < len(es) ==> zs[j] != nil && sameEntry(zs[j], es[j])
+
+//@ func makeProtoRequestVoteRequest
+//@   ensures [fields] result != nil && result.CandidateId == request.CandidateID && result.Term == request.Term && result.LastLogIndex == request.LastLogIndex && result.LastLogTerm == request.LastLogTerm && result.Prevote == request.Prevote
+//@ func makeRequestVoteRequest
+//@   ensures [fields] request != nil ==> result.CandidateID == request.CandidateId && result.Term == request.Term && result.LastLogIndex == request.LastLogIndex && result.LastLogTerm == request.LastLogTerm && result.Prevote == request.Prevote
+//@ lemma roundtrip.RequestVoteRequest(x RequestVoteRequest)
+//@   val y = makeProtoRequestVoteRequest(x)
+//@   val z = makeRequestVoteRequest(y)
+//@   ensures [eq] z == x
+
+//@ func makeProtoRequestVoteResponse
+//@   ensures [fields] result != nil && result.Term == response.Term && result.VoteGranted == response.VoteGranted
+//@ func makeRequestVoteResponse
+//@   ensures [fields] response != nil ==> result.Term == response.Term && result.VoteGranted == response.VoteGranted
+//@ lemma roundtrip.RequestVoteResponse(x RequestVoteResponse)
+//@   val y = makeProtoRequestVoteResponse(x)
+//@   val z = makeRequestVoteResponse(y)
+//@   ensures [eq] z == x
+
+//@ func makeProtoAppendEntriesResponse
+//@   ensures [fields] result != nil && result.Term == response.Term && result.Success == response.Success && result.Index == response.Index
+//@ func makeAppendEntriesResponse
+//@   ensures [fields] response != nil ==> result.Term == response.Term && result.Success == response.Success && result.Index == response.Index
+//@ lemma roundtrip.AppendEntriesResponse(x AppendEntriesResponse)
+//@   val y = makeProtoAppendEntriesResponse(x)
+//@   val z = makeAppendEntriesResponse(y)
+//@   ensures [eq] z == x
+
+//@ func makeProtoInstallSnapshotResponse
+//@   ensures [fields] result != nil && result.Term == response.Term && result.BytesWritten == response.BytesWritten
+//@ func makeInstallSnapshotResponse
+//@   ensures [fields] response != nil ==> result.Term == response.Term && result.BytesWritten == response.BytesWritten
+//@ lemma roundtrip.InstallSnapshotResponse(x InstallSnapshotResponse)
+//@   val y = makeProtoInstallSnapshotResponse(x)
+//@   val z = makeInstallSnapshotResponse(y)
+//@   ensures [eq] z == x
+
+//@ func makeProtoInstallSnapshotRequest
+//@   ensures [fields] result != nil && result.Leader == request.LeaderID && result.Term == request.Term && result.LastIncludedIndex == request.LastIncludedIndex && result.LastIncludedTerm == request.LastIncludedTerm && result.Configuration == request.Configuration && result.Data == request.Bytes && result.Offset == request.Offset && result.Done == request.Done
+//@ func makeInstallSnapshotRequest
+//@   ensures [fields] request != nil ==> result.LeaderID == request.Leader && result.Term == request.Term && result.LastIncludedIndex == request.LastIncludedIndex && result.LastIncludedTerm == request.LastIncludedTerm && result.Configuration == request.Configuration && result.Bytes == request.Data && result.Offset == request.Offset && result.Done == request.Done
+//@ lemma roundtrip.InstallSnapshotRequest(x InstallSnapshotRequest)
+//@   val y = makeProtoInstallSnapshotRequest(x)
+//@   val z = makeInstallSnapshotRequest(y)
+//@   ensures [eq] z == x
+
+//@ func makeProtoAppendEntriesRequest
+//@   requires forall j int :: 0 <= j && j < len(request.Entries) ==> request.Entries[j] != nil
+//@   ensures [fields] result != nil && result.LeaderId == request.LeaderID && result.Term == request.Term && result.LeaderCommit == request.LeaderCommit && result.PrevLogIndex == request.PrevLogIndex && result.PrevLogTerm == request.PrevLogTerm
+//@   ensures [entries] len(result.Entries) == len(request.Entries) && forall j int :: 0 <= j && j < len(request.Entries) ==> protoOf(result.Entries[j], request.Entries[j])
+//@ func makeAppendEntriesRequest
+//@   requires request != nil && forall j int :: 0 <= j && j < len(request.Entries) ==> request.Entries[j] != nil
+//@   ensures [fields] result.LeaderID == request.LeaderId && result.Term == request.Term && result.LeaderCommit == request.LeaderCommit && result.PrevLogIndex == request.PrevLogIndex && result.PrevLogTerm == request.PrevLogTerm
+//@   ensures [entries] len(result.Entries) == len(request.Entries) && forall j int :: 0 <= j && j < len(request.Entries) ==> entryOf(result.Entries[j], request.Entries[j])
+//@ lemma roundtrip.AppendEntriesRequest(x AppendEntriesRequest)
+//@   requires forall j int :: 0 <= j && j < len(x.Entries) ==> x.Entries[j] != nil
+//@   val y = makeProtoAppendEntriesRequest(x)
+//@   val z = makeAppendEntriesRequest(y)
+//@   ensures [fields] z.LeaderID == x.LeaderID && z.Term == x.Term && z.LeaderCommit == x.LeaderCommit && z.PrevLogIndex == x.PrevLogIndex && z.PrevLogTerm == x.PrevLogTerm
+//@   ensures [entries] len(z.Entries) == len(x.Entries) && forall j int :: 0 <= j && j < len(x.Entries) ==> z.Entries[j] != nil && sameEntry(z.Entries[j], x.Entries[j])
